@@ -531,18 +531,35 @@ pub fn request_stop() {
 }
 
 pub struct ExploreStats {
+	/// distinct schedules judged
 	pub schedules: u64,
+	/// executions performed (iterative context bounding re-runs the schedules of the lower levels)
+	pub executions: u64,
 	pub max_points: usize,
 	pub max_preemptions_used: u32,
 	pub horizon_hits: u64,
 	pub livelocks: u64,
+	/// the exploration stopped early (schedule cap, time budget or request_stop)
 	pub capped: bool,
+	/// highest preemption bound whose schedules were ALL explored
+	pub completed_bound: Option<u32>,
+	/// every schedule of the harness was explored (a level added no schedule: nothing deeper exists)
+	pub complete: bool,
 	pub error: Option<String>,
 }
 
-/// Explore all schedules of `body` with at most `bound` preemptions (None = unbounded).
-/// `body(prefix)` builds fresh objects, runs one execution with `Exec::begin(cfg, prefix)` and returns
-/// the run result plus the harness' observation; `judge` is called for every completed execution.
+/// wall-clock budget of one `explore` call in milliseconds (0 = none); when it runs out the exploration stops at
+/// the end of the current execution and reports `capped` with the last fully completed bound
+static BUDGET_MS: std::sync::atomic::AtomicU64 = std::sync::atomic::AtomicU64::new(0);
+pub fn set_budget_ms(ms: u64) {
+	BUDGET_MS.store(ms, std::sync::atomic::Ordering::SeqCst);
+}
+
+/// Explore all schedules of `body` with at most `bound` preemptions (None = until no deeper schedule exists), by
+/// iterative context bounding: level 0 (no preemption), then 1, then 2, ... Each level is a depth-first search over
+/// choice vectors with re-execution from scratch; a schedule is judged at the level that equals its preemption count.
+/// `body(prefix)` builds fresh objects, runs one execution with `Exec::begin(cfg, prefix)` and returns the run
+/// result plus the harness' observation; `judge` is called once for every distinct completed schedule.
 pub fn explore<O: PartialEq + std::fmt::Debug>(
 	bound: Option<u32>,
 	max_schedules: u64,
@@ -551,82 +568,136 @@ pub fn explore<O: PartialEq + std::fmt::Debug>(
 ) -> ExploreStats {
 	let mut stats = ExploreStats {
 		schedules: 0,
+		executions: 0,
 		max_points: 0,
 		max_preemptions_used: 0,
 		horizon_hits: 0,
 		livelocks: 0,
 		capped: false,
+		completed_bound: None,
+		complete: false,
 		error: None,
 	};
-	let mut stack: Vec<Vec<u8>> = vec![vec![]];
+	let t0 = std::time::Instant::now();
+	let budget = BUDGET_MS.load(std::sync::atomic::Ordering::SeqCst);
 	STOP.store(false, std::sync::atomic::Ordering::SeqCst);
-	while let Some(prefix) = stack.pop() {
-		if STOP.load(std::sync::atomic::Ordering::SeqCst) {
-			stats.capped = true;
-			break;
-		}
-		if stats.schedules >= max_schedules {
-			stats.capped = true;
-			break;
-		}
-		let (res, obs) = body(&prefix);
-		stats.schedules += 1;
-		if stats.schedules == 1 {
-			// determinism is checked, not assumed: the first schedule once more, same observation and same trace
-			let (res2, obs2) = body(&prefix);
-			if obs2 != obs || res2.trace != res.trace {
-				stats.error = Some(format!(
-					"the harness is not deterministic: replaying the first schedule gave a different observation or trace ({:?} / {} points vs {:?} / {} points)",
-					obs,
-					res.trace.len(),
-					obs2,
-					res2.trace.len()
-				));
+	// unbounded: one depth-first pass over everything (no re-execution of lower levels); if it is cut short no bound is claimed
+	let unbounded = bound.is_none();
+	let mut level = if unbounded { u32::MAX } else { 0u32 };
+	loop {
+		if let Some(b) = bound {
+			if level > b {
 				break;
 			}
 		}
-		if let Some(d) = &res.divergence {
-			stats.error = Some(d.clone());
-			break;
-		}
-		// the prefix must have been followed
-		for (i, c) in prefix.iter().enumerate() {
-			if res.trace.get(i).map(|p| p.chosen) != Some(*c) {
-				stats.error = Some(format!("replay divergence: prefix {:?} not reproduced (trace {:?})", prefix, &res.trace[..res.trace.len().min(prefix.len() + 1)]));
+		let mut new_at_level = 0u64;
+		let mut stack: Vec<Vec<u8>> = vec![vec![]];
+		let mut finished_level = true;
+		while let Some(prefix) = stack.pop() {
+			if STOP.load(std::sync::atomic::Ordering::SeqCst) || stats.schedules >= max_schedules || (budget > 0 && t0.elapsed().as_millis() as u64 > budget) {
+				stats.capped = true;
+				finished_level = false;
+				break;
+			}
+			let (res, obs) = body(&prefix);
+			stats.executions += 1;
+			if stats.executions == 1 {
+				// determinism is checked, not assumed: the first schedule once more, same observation and same trace
+				let (res2, obs2) = body(&prefix);
+				if obs2 != obs || res2.trace != res.trace {
+					stats.error = Some(format!(
+						"the harness is not deterministic: replaying the first schedule gave a different observation or trace ({:?} / {} points vs {:?} / {} points)",
+						obs,
+						res.trace.len(),
+						obs2,
+						res2.trace.len()
+					));
+					return stats;
+				}
+			}
+			if let Some(d) = &res.divergence {
+				stats.error = Some(d.clone());
 				return stats;
 			}
-		}
-		match res.end {
-			EndKind::Horizon => stats.horizon_hits += 1,
-			EndKind::Livelock => stats.livelocks += 1,
-			EndKind::Completed => {}
-		}
-		stats.max_points = stats.max_points.max(res.trace.len());
-		let choices: Vec<u8> = res.trace.iter().map(|p| p.chosen).collect();
-		judge(&res, &obs, &choices);
-		// children
-		let mut pre = 0u32;
-		let mut pre_at: Vec<u32> = Vec::with_capacity(res.trace.len());
-		for p in &res.trace {
-			pre_at.push(pre);
-			if p.chosen != 0 && p.cur_enabled {
-				pre += 1;
+			// the prefix must have been followed
+			for (i, c) in prefix.iter().enumerate() {
+				if res.trace.get(i).map(|p| p.chosen) != Some(*c) {
+					stats.error = Some(format!("replay divergence: prefix {:?} not reproduced (trace {:?})", prefix, &res.trace[..res.trace.len().min(prefix.len() + 1)]));
+					return stats;
+				}
 			}
-		}
-		stats.max_preemptions_used = stats.max_preemptions_used.max(pre);
-		for i in (prefix.len()..res.trace.len()).rev() {
-			let p = res.trace[i];
-			for alt in 1..p.n_enabled {
-				let cost = pre_at[i] + if p.cur_enabled { 1 } else { 0 };
-				if bound.map(|b| cost <= b).unwrap_or(true) {
-					let mut np = choices[..i].to_vec();
-					np.push(alt);
-					stack.push(np);
+			let choices: Vec<u8> = res.trace.iter().map(|p| p.chosen).collect();
+			let mut pre = 0u32;
+			let mut pre_at: Vec<u32> = Vec::with_capacity(res.trace.len());
+			for p in &res.trace {
+				pre_at.push(pre);
+				if p.chosen != 0 && p.cur_enabled {
+					pre += 1;
+				}
+			}
+			if pre == level || unbounded {
+				// a schedule is judged exactly once: at the level of its own preemption count
+				new_at_level += 1;
+				stats.schedules += 1;
+				match res.end {
+					EndKind::Horizon => stats.horizon_hits += 1,
+					EndKind::Livelock => stats.livelocks += 1,
+					EndKind::Completed => {}
+				}
+				stats.max_points = stats.max_points.max(res.trace.len());
+				stats.max_preemptions_used = stats.max_preemptions_used.max(pre);
+				judge(&res, &obs, &choices);
+			}
+			// children within this level's bound
+			for i in (prefix.len()..res.trace.len()).rev() {
+				let p = res.trace[i];
+				for alt in 1..p.n_enabled {
+					let cost = pre_at[i] + if p.cur_enabled { 1 } else { 0 };
+					if cost <= level {
+						let mut np = choices[..i].to_vec();
+						np.push(alt);
+						stack.push(np);
+					}
 				}
 			}
 		}
+		if !finished_level {
+			break;
+		}
+		if unbounded {
+			stats.complete = true;
+			stats.completed_bound = Some(stats.max_preemptions_used);
+			break;
+		}
+		stats.completed_bound = Some(level);
+		if new_at_level == 0 {
+			// no schedule has exactly `level` preemptions, hence none has more: everything was explored
+			stats.complete = true;
+			stats.completed_bound = Some(level.saturating_sub(1));
+			break;
+		}
+		level += 1;
+	}
+	if bound.is_none() && !stats.complete && !stats.capped {
+		stats.complete = true;
 	}
 	stats
+}
+
+/// records what an exploration covered in the evidence counters of the running case
+pub fn report(ctx: &mut crate::engine::Ctx, stats: &ExploreStats) {
+	let label = format!("case {}", ctx.cur_case);
+	ctx.count(&format!("e2_executions[{}]", label), stats.executions);
+	ctx.count(&format!("e2_distinct_schedules[{}]", label), stats.schedules);
+	if let Some(b) = stats.completed_bound {
+		ctx.count(&format!("e2_completed_preemption_bound[{}]", label), b as u64);
+	}
+	if stats.complete {
+		ctx.count(&format!("e2_all_schedules_explored[{}]", label), 1);
+	}
+	if stats.capped {
+		ctx.count(&format!("e2_stopped_early_by_cap_or_budget[{}]", label), 1);
+	}
 }
 
 pub fn fmt_schedule(res: &RunResult) -> String {
